@@ -1476,6 +1476,13 @@ func c02Random(r *hx.Rng) hx.Case {
 		rid++
 		c02Put(l.file(paths[0]), kind, c02TopName(kind, "E"), c02Ref(c02Spell(paths[0], ef, r.Intn(6)), "e"+strconv.Itoa(rid)))
 	}
+	// a history: several documents of the layout loaded one after the other on one Loader
+	if r.Chance(20) {
+		n := 2 + r.Intn(2)
+		for i := 0; i < n; i++ {
+			l.loads = append(l.loads, [2]string{hx.Pick(r, []string{"file", "path"}), hx.Pick(r, paths)})
+		}
+	}
 	return l.toCase()
 }
 
